@@ -109,6 +109,32 @@ def replay_call(harness: Path, call: str, pythonpath: list[str], timeout: int = 
     return {"reproduced": False, "observed": "replay process failed: " + (p.stderr or p.stdout)[-800:], "replay_error": True}
 
 
+def _neighbour_calls(call: str, limit: int = 60) -> list[str]:
+    import ast
+
+    try:
+        node = ast.parse(call, mode="eval").body
+        args = [ast.literal_eval(a) for a in node.args]
+        name = ast.unparse(node.func)
+    except (SyntaxError, ValueError, AttributeError):
+        return []
+    out = []
+    for i, a in enumerate(args):
+        if isinstance(a, bool):
+            alts: list = [not a]
+        elif isinstance(a, int):
+            alts = [v for v in (0, 1, 2, 3) if v != a]
+        elif isinstance(a, str):
+            alts = [v for v in ("", "a") if v != a]
+        else:
+            alts = []
+        for v in alts:
+            b = list(args)
+            b[i] = v
+            out.append(f"{name}({', '.join(repr(x) for x in b)})")
+    return out[:limit]
+
+
 def check_file(harness: Path, funcs: list[str], timeout: int, pythonpath: list[str], parallel: int = 8, per_path: float | None = None) -> list[dict]:
     """Run every condition; replay every counterexample.  Returns one record per condition."""
     with ThreadPoolExecutor(max_workers=max(1, parallel)) as ex:
@@ -117,6 +143,18 @@ def check_file(harness: Path, funcs: list[str], timeout: int, pythonpath: list[s
         if r["verdict"] == "counterexample":
             if r.get("call"):
                 r["replay"] = replay_call(harness, r["call"], pythonpath)
+                if not r["replay"].get("reproduced") and "Cell is empty" in r.get("message", ""):
+                    # CrossHair copies closures when a nested `def` executes and trips over a cell that is still
+                    # unassigned: the failure is real (a name used by a nested function became an unassigned local of
+                    # the enclosing one) but on the real interpreter it only shows on the branch that reads the cell,
+                    # which need not be the one the reported arguments take.  Look for that branch among the
+                    # single-argument neighbours of the reported call.
+                    for alt in _neighbour_calls(r["call"]):
+                        rp = replay_call(harness, alt, pythonpath)
+                        if rp.get("reproduced"):
+                            r["replay"] = dict(rp, neighbour_of=r["call"])
+                            r["call"] = alt
+                            break
             else:
                 r["replay"] = {"reproduced": False, "observed": "could not parse the counterexample call", "replay_error": True}
     return recs
